@@ -71,8 +71,10 @@ type doneEvt struct {
 
 // acceptPlan tells a party's proposal handler how to answer the next proposal with a given ID.
 type acceptPlan struct {
-	acc client.ChannelProposalAccept // nil: build the default accept message
-	res chan acceptRes
+	acc   client.ChannelProposalAccept        // nil: build the accept message with the library's Accept API
+	share client.NonceShare                   // the responder's nonce share chosen by the harness (acc == nil)
+	part  map[wallet.BackendID]wallet.Address // the responder's participant (nil: a fresh account)
+	res   chan acceptRes
 }
 type acceptRes struct {
 	ch       *client.Channel
@@ -156,7 +158,7 @@ func (p *party) HandleProposal(prop client.ChannelProposal, r *client.ProposalRe
 		}
 		acc := plan.acc
 		if acc == nil {
-			acc = p.defaultAccept(prop)
+			acc = p.libraryAccept(prop, plan.part, plan.share)
 		}
 		ctx, cancel := context.WithTimeout(context.Background(), opTimeout)
 		defer cancel()
@@ -170,14 +172,19 @@ func (p *party) HandleProposal(prop client.ChannelProposal, r *client.ProposalRe
 	}()
 }
 
-func (p *party) defaultAccept(prop client.ChannelProposal) client.ChannelProposalAccept {
+// libraryAccept builds the accept message the way a user does: through the proposal's Accept method,
+// with an explicit nonce share (client.WithNonce) and participant chosen by the harness.
+func (p *party) libraryAccept(prop client.ChannelProposal, part map[wallet.BackendID]wallet.Address, share client.NonceShare) client.ChannelProposalAccept {
+	if part == nil {
+		part = p.waddr(p.newAccount())
+	}
 	switch x := prop.(type) {
 	case *client.LedgerChannelProposalMsg:
-		return x.Accept(p.waddr(p.newAccount()), client.WithNonce(p.share()))
+		return x.Accept(part, client.WithNonce(share))
 	case *client.SubChannelProposalMsg:
-		return x.Accept(client.WithNonce(p.share()))
+		return x.Accept(client.WithNonce(share))
 	case *client.VirtualChannelProposalMsg:
-		return x.Accept(p.waddr(p.newAccount()), client.WithNonce(p.share()))
+		return x.Accept(part, client.WithNonce(share))
 	}
 	panic("unknown proposal type")
 }
@@ -189,11 +196,15 @@ func (p *party) HandleUpdate(_ *channel.State, _ client.ChannelUpdate, r *client
 }
 
 func (p *party) plan(id client.ProposalID, acc client.ChannelProposalAccept) chan acceptRes {
-	c := make(chan acceptRes, 1)
+	return p.planWith(id, &acceptPlan{acc: acc})
+}
+
+func (p *party) planWith(id client.ProposalID, pl *acceptPlan) chan acceptRes {
+	pl.res = make(chan acceptRes, 1)
 	p.mu.Lock()
-	p.plans[id] = &acceptPlan{acc: acc, res: c}
+	p.plans[id] = pl
 	p.mu.Unlock()
-	return c
+	return pl.res
 }
 
 func (p *party) calledCount(id client.ProposalID) int {
@@ -202,15 +213,38 @@ func (p *party) calledCount(id client.ProposalID) int {
 	return p.called[id]
 }
 
+// recBus is the local bus with a record of the accept messages that travelled over it.
+type recBus struct {
+	*wire.LocalBus
+	mu   sync.Mutex
+	accs map[client.ProposalID][]client.ChannelProposalAccept
+}
+
+func (b *recBus) Publish(ctx context.Context, e *wire.Envelope) error {
+	if a, ok := e.Msg.(client.ChannelProposalAccept); ok {
+		b.mu.Lock()
+		b.accs[a.Base().ProposalID] = append(b.accs[a.Base().ProposalID], a)
+		b.mu.Unlock()
+	}
+	return b.LocalBus.Publish(ctx, e)
+}
+
+// accepts returns the accept messages published for a proposal.
+func (b *recBus) accepts(id client.ProposalID) []client.ChannelProposalAccept {
+	b.mu.Lock()
+	defer b.mu.Unlock()
+	return append([]client.ChannelProposalAccept{}, b.accs[id]...)
+}
+
 type world struct {
-	bus     *wire.LocalBus
+	bus     *recBus
 	parties []*party
 }
 
 // newWorld creates n parties; party 0 runs the instrumented VerifHandle loop (panic recovery and
 // completion events), the others the real Client.Handle.
 func newWorld(r *rand.Rand, n int, jitter bool) *world {
-	w := &world{bus: wire.NewLocalBus()}
+	w := &world{bus: &recBus{LocalBus: wire.NewLocalBus(), accs: map[client.ProposalID][]client.ChannelProposalAccept{}}}
 	for i := 0; i < n; i++ {
 		p := &party{name: string(rune('A' + i)), wal: simwallet.NewWallet(), rng: rand.New(rand.NewSource(r.Int63())),
 			called: map[client.ProposalID]int{}, plans: map[client.ProposalID]*acceptPlan{}, done: make(chan doneEvt, 64), jitter: jitter}
@@ -241,7 +275,8 @@ func (w *world) close() {
 // openRes is what both sides of one opening returned.
 type openRes struct {
 	prop   client.ChannelProposal
-	acc    client.ChannelProposalAccept
+	share  client.NonceShare            // the responder's share the harness chose
+	acc    client.ChannelProposalAccept // the accept message the responder handed to Accept
 	chP    *client.Channel
 	chR    *client.Channel
 	errP   error
@@ -249,12 +284,13 @@ type openRes struct {
 	called int // handler invocations at the responder
 }
 
-// open lets `from` propose prop to `to` (which accepts with acc, or its default accept message).
-func (w *world) open(from, to *party, prop client.ChannelProposal, acc client.ChannelProposalAccept) openRes {
-	resc := to.plan(prop.Base().ProposalID, acc)
+// open lets `from` propose prop to `to`
+// (which accepts through the library's Accept API with the given participant and nonce share).
+func (w *world) open(from, to *party, prop client.ChannelProposal, part map[wallet.BackendID]wallet.Address, share client.NonceShare) openRes {
+	resc := to.planWith(prop.Base().ProposalID, &acceptPlan{share: share, part: part})
 	ctx, cancel := context.WithTimeout(context.Background(), opTimeout)
 	defer cancel()
-	out := openRes{prop: prop}
+	out := openRes{prop: prop, share: share}
 	out.chP, out.errP = from.cl.ProposeChannel(ctx, prop)
 	select {
 	case r := <-resc:
